@@ -144,6 +144,7 @@ fn class_weights(mode: Prop, kind: Kind, mbuff_len: usize) -> Vec<(Class, u32)> 
             if has_pkt {
                 w.push((Class::ProbePktAbs, 1));
                 w.push((Class::ProbePktInd, 1));
+                w.push((Class::ProbePktChain, 1));
                 w.push((Class::ProbeHelperThenPkt, 1));
                 w.push((Class::ProbeCallThenPkt, 1));
             }
@@ -177,6 +178,7 @@ fn class_weights(mode: Prop, kind: Kind, mbuff_len: usize) -> Vec<(Class, u32)> 
             if has_pkt {
                 w.push((Class::ProbePktAbs, 3));
                 w.push((Class::ProbePktInd, 3));
+                w.push((Class::ProbePktChain, 2));
                 w.push((Class::ProbeHelperThenPkt, 3));
                 w.push((Class::ProbeCallThenPkt, 2));
             }
@@ -328,6 +330,15 @@ pub fn generate(rng: &mut Rng, mode: Prop) -> Scenario {
             }
             Class::StackFill => gen_stack_fill(rng, tag, kind.has_packet()),
             Class::DeepCall => gen_deep_call(tag),
+            Class::ProbePktChain => {
+                if p0len < 300 {
+                    gen_probe_pkt_abs(tag, 0, 1) // only long packets can be indexed by a loaded byte
+                } else {
+                    let n = rng.range(2, 3) as usize;
+                    let imms: Vec<usize> = (0..n).map(|_| rng.below(24) as usize).collect();
+                    gen_probe_pkt_chain(tag, rng.below(16) as usize, &imms, rng.chance(2, 3), *rng.pick(&[3u8, 2, 6, 7]))
+                }
+            }
             Class::ProbePktReload => {
                 let w = *rng.pick(&[1u8, 2, 4]);
                 let idx = pick_pkt_index(rng, p0len - 8).max(3);
@@ -483,6 +494,21 @@ pub fn generate(rng: &mut Rng, mode: Prop) -> Scenario {
                     // same compiler and run it (anything cached from the first time shows now)
                     forced.push(Op::Exec { engine, pkt: gen_pkt(rng, &sc, m), mb: 0 });
                     forced.push(if engine == Engine::Jit { Op::JitCompile } else { Op::ClCompile });
+                } else if matches!(sc.ops.last(), Some(Op::RegisterHelper { key, hid }) if before.as_ref().and_then(|b| b.helpers.get(key)).map(|h| h != hid).unwrap_or(false)) && (m.jit.is_some() || m.cl.is_some()) && rng.chance(1, 2) {
+                    // the function behind a key was replaced while compiled code exists: compile again
+                    // (with both compilers, in either order, when both have code) and run the last one
+                    let (e1, e2) = if rng.chance(1, 2) { (Engine::Jit, Engine::Cl) } else { (Engine::Cl, Engine::Jit) };
+                    let comp = |e: Engine| if e == Engine::Jit { Op::JitCompile } else { Op::ClCompile };
+                    let has = |e: Engine| if e == Engine::Jit { m.jit.is_some() } else { m.cl.is_some() };
+                    if has(e1) && has(e2) {
+                        forced.push(Op::Exec { engine: e2, pkt: gen_pkt(rng, &sc, m), mb: 0 });
+                        forced.push(comp(e2));
+                        forced.push(comp(e1));
+                    } else {
+                        let e = if has(e1) { e1 } else { e2 };
+                        forced.push(Op::Exec { engine: e, pkt: gen_pkt(rng, &sc, m), mb: 0 });
+                        forced.push(comp(e));
+                    }
                 } else if is_compile && succeeded && rng.chance(2, 5) {
                     forced.push(gen_set_program(rng, &sc, m, &offsets, &past));
                 } else if !succeeded && before.is_some() && rng.chance(1, 2) {
